@@ -113,7 +113,7 @@ def rand_valid(r):
 
 INVALID = [".", "e5", "1e", "1(2", "1()", "1(2)x", "1 ", " 1", "", "+", "-", "+.", "1..2", "1.2.3", "1e+", "1e-", "1ee5", "1e5.0",
            "1(", "1)", "1(a)", "1(2)(3)", "--1", "+-1", "1-", "1e5e5", ".e5", "-.e1", "1(-2)", "1(2.0)", "0x10", "1,5", "1d5",
-           "1e5(", "1e5()", "(1)", "1.(2", "nan", "inf", "１", "1٠"]
+           "1e5(", "1e5()", "(1)", "2E-(3)", "1e+(2)", "1E+", ".5e-", "1.e+(0)", "7e-(12)", "-3.25E+", "+.5e+(1)", "1.(2", "nan", "inf", "１", "1٠"]
 
 
 def generate(seed, tier):
@@ -140,6 +140,10 @@ def generate(seed, tier):
             s = s[:p] + ch + s[p:] if op == 0 else (s[:p] + s[p + 1:] if op == 1 else s[:p] + ch + s[p + 1:])
         else:
             s = "".join(r.choice(ALPHA) for _ in range(r.randint(0, 9)))
+        if r.random() < 0.04:
+            # exponent marker and sign without digits, with and without su
+            base = rand_valid(r).split("e")[0].split("E")[0].split("(")[0]
+            s = base + r.choice("eE") + r.choice("+-") + r.choice(["", "", "(%d)" % r.randint(0, 99)])
         if r.random() < 0.01:
             s = s[:r.randint(0, len(s))] + "\0" + "9"        # the C string ends at the NUL
         if r.random() < 0.25:
